@@ -1,6 +1,7 @@
 package props
 
 import (
+	"bytes"
 	"encoding/binary"
 	"encoding/json"
 	"fmt"
@@ -121,6 +122,20 @@ func messageCaseProblem(c *mcase) (problem string, converted bool, accepts int) 
 		if problem != "" || !converted || msg == nil {
 			return
 		}
+		// verdicts under the first result, then the caller overwrites the fields of that result (by assignment: the usual
+		// opts.TdQuoteBodyOptions.ReportData = nonce) — a later conversion must not inherit any of it
+		var first []bool
+		for _, qb := range c.Quotes {
+			q, _ := ref.ParseQuote(qb)
+			m := mon.BuildMessage(q)
+			var e error
+			mon.Guard(func() { e = validate.TdxQuote(m, opts) })
+			first = append(first, e == nil)
+		}
+		junk := bytes.Repeat([]byte{0x5a}, 64)
+		opts.HeaderOptions = validate.HeaderOptions{MinimumQeSvn: 65535, MinimumPceSvn: 65535, QeVendorID: junk[:16]}
+		opts.TdQuoteBodyOptions = validate.TdQuoteBodyOptions{MinimumTeeTcbSvn: bytes.Repeat([]byte{0xff}, 16), MrSeam: junk[:48], TdAttributes: junk[:8], Xfam: junk[:8], MrTd: junk[:48],
+			MrConfigID: junk[:48], MrOwner: junk[:48], MrOwnerConfig: junk[:48], Rtmrs: [][]byte{junk[:48], junk[:48], junk[:48], junk[:48]}, ReportData: junk, AnyMrTd: [][]byte{junk[:48]}}
 		var again *validate.Options
 		var err2 error
 		if pv, st := mon.Guard(func() { again, err2 = validate.PolicyToOptions(msg) }); pv != "" {
@@ -134,9 +149,9 @@ func messageCaseProblem(c *mcase) (problem string, converted bool, accepts int) 
 		for qi, qb := range c.Quotes {
 			q, _ := ref.ParseQuote(qb)
 			m := mon.BuildMessage(q)
-			var e1, e2 error
-			if pv, _ := mon.Guard(func() { e1 = validate.TdxQuote(m, opts); e2 = validate.TdxQuote(m, again) }); pv == "" && (e1 == nil) != (e2 == nil) {
-				problem = fmt.Sprintf("quote %d: verdict under the options of the first conversion (accepted=%v) differs from the verdict under the options of a second conversion of the same message value (accepted=%v, %v): the first conversion or the validations changed what the message says", qi, e1 == nil, e2 == nil, e2)
+			var e2 error
+			if pv, _ := mon.Guard(func() { e2 = validate.TdxQuote(m, again) }); pv == "" && first[qi] != (e2 == nil) {
+				problem = fmt.Sprintf("quote %d: verdict under the options of the first conversion (accepted=%v) differs from the verdict under the options of a second conversion of the same message value (accepted=%v, %v): the first conversion, the validations, or what the caller later assigned to the first result changed what a conversion of the message yields", qi, first[qi], e2 == nil, e2)
 				return
 			}
 		}
